@@ -317,7 +317,8 @@ def gen_random(rng, count):
             k = max(0, min(k, w))
             a = [gen_coef(rng, cls, ab, a_size, False) for _ in range(n)]
             if op.endswith("_assign"):
-                p = {"b": ab, "k": k, "scr": 0}
+                # the scratch area is not the caller's to clean: a dirty scratch (scr != 0) must not matter
+                p = {"b": ab, "k": k, "scr": rng.choice([0, 0, 5, -3, 1 << 40])}
                 cases.append(Case(op, p, a, None, cls, bes))
             else:
                 if op in ("lsh", "rsh"):
@@ -537,6 +538,8 @@ def fail_key(c, kind, gap, be=""):
             return "vec_znx_rsh_assign:steps>size-panic"
         if steps >= 2 and kind == "value":
             return "vec_znx_rsh_assign:steps>=2"
+        if c.p["k"] == 0 and c.p.get("scr", 0) != 0:
+            return "vec_znx_rsh_assign:k=0-stale-scratch-carry"
     cross = "ab" in c.p and c.p["ab"] != c.p["rb"]
     if c.op == "big_normalize_sub" and cross and be.startswith("ntt120") and c.p["off"] < 0 and kind == "value":
         return "ntt120:vec_znx_big_normalize_sub_assign:cross-radix:negative-offset"
